@@ -250,6 +250,13 @@ func (w *World) deadErrEval(c ssa.Value) (bool, bool) {
 	if bo, ok := c.(*ssa.BinOp); ok {
 		for _, side := range []ssa.Value{bo.X, bo.Y} {
 			v := stripConv(side)
+			// an error variable that merges the results of several steps: on the path
+			// being enumerated it is the result of the step the path came through
+			if _, isPhi := v.(*ssa.Phi); isPhi && w.cur != nil && w.cur.st != nil {
+				if rv := stripConv(w.phiOnPath(v)); rv != nil && rv != v {
+					v = rv
+				}
+			}
 			var call *ssa.Call
 			switch y := v.(type) {
 			case *ssa.Call:
@@ -303,25 +310,76 @@ func errBranchOf(w *World, marker string, call ssa.Value) (isErrEdge bool, isOkE
 	if call == nil {
 		return false, false
 	}
-	cc := w.Canon(call)
 	body := marker[3:]
-	for _, pat := range []string{"(" + cc + " != nil)", "(" + cc + "#1 != nil)", "(" + cc + "#2 != nil)"} {
-		if body == pat {
-			if strings.HasPrefix(marker, "?T:") {
-				return true, false
-			}
-			return false, true
-		}
-	}
-	for _, pat := range []string{"(" + cc + " == nil)", "(" + cc + "#1 == nil)"} {
-		if body == pat {
-			if strings.HasPrefix(marker, "?T:") {
+	// the marker may carry the call with its phis replaced by what the path took
+	for _, cc := range phiVariants(w.Canon(call), 16) {
+		for _, pat := range []string{"(" + cc + " != nil)", "(" + cc + "#1 != nil)", "(" + cc + "#2 != nil)"} {
+			if body == pat {
+				if strings.HasPrefix(marker, "?T:") {
+					return true, false
+				}
 				return false, true
 			}
-			return true, false
+		}
+		for _, pat := range []string{"(" + cc + " == nil)", "(" + cc + "#1 == nil)"} {
+			if body == pat {
+				if strings.HasPrefix(marker, "?T:") {
+					return false, true
+				}
+				return true, false
+			}
 		}
 	}
 	return false, false
+}
+
+// phiVariants: s itself and s with each `phi(a|b|…)` replaced by one of its
+// alternatives (what a path-resolved print of the same value looks like).
+func phiVariants(s string, max int) []string {
+	out := []string{s}
+	i := strings.Index(s, "phi(")
+	if i < 0 {
+		return out
+	}
+	// find the matching parenthesis and the top-level alternatives
+	depth, start := 0, i+4
+	var alts []string
+	last := start
+	end := -1
+	for j := i + 3; j < len(s); j++ {
+		switch s[j] {
+		case '(', '[':
+			depth++
+		case ')', ']':
+			depth--
+			if depth == 0 {
+				alts = append(alts, s[last:j])
+				end = j
+			}
+		case '|':
+			if depth == 1 {
+				alts = append(alts, s[last:j])
+				last = j + 1
+			}
+		}
+		if end >= 0 {
+			break
+		}
+	}
+	if end < 0 {
+		return out
+	}
+	for _, a := range alts {
+		for _, rest := range phiVariants(s[end+1:], max) {
+			for _, inner := range phiVariants(a, max) {
+				if len(out) >= max {
+					return out
+				}
+				out = append(out, s[:i]+inner+rest)
+			}
+		}
+	}
+	return out
 }
 
 // compensates: does effect c undo effect e?
